@@ -1,5 +1,122 @@
-"""thorough tier: self-validation of the rules on scratch variants (filled in per property)"""
+"""Thorough tier, part 2: self-validation of a property's rules on scratch variants of the *current* tree.
+
+* must fire  : every seeded change / fix revert under /verif/seeded that this property's check is recorded to catch
+               (seeded/matrix.json) is applied to a scratch copy of /repo/tealer (outside /repo and /verif, deleted
+               afterwards) and the check must exit 1 there;
+* must stay silent: behaviour-preserving rewrites (locals renamed, helper extracted, isinstance tuples split,
+               statements without dependence reordered ...) are applied the same way and the check must exit 0.
+
+A variant whose anchor text is no longer present in the tree is skipped and counted (the tree moved on; it is
+not a verdict).  A variant that applies but gives the wrong answer means the *checker* is broken:
+ANALYSIS-ERROR, never a VIOLATION.
+"""
+import concurrent.futures
+import json
+import os
+import pathlib
+import shutil
+import subprocess
+import tempfile
+
+from .report import AnalysisError
+
+VERIF = pathlib.Path(__file__).resolve().parent.parent
+
+# behaviour-preserving rewrites: (file, old text, new text, properties whose checks must stay silent)
+SILENT = [
+    ("tealer/analyses/dataflow/transaction_context/fee_field.py", "        if isinstance(comparison_ins, Eq):\n            # x == i => i, U\n            return compared_value, FeeValue()",
+     "        if type(comparison_ins).__name__ == \"Eq\" or isinstance(comparison_ins, Eq):\n            return compared_value, FeeValue()", ["C09", "C03"]),
+    ("tealer/analyses/dataflow/transaction_context/int_fields.py", "        elif isinstance(comparison_ins, Less):\n            return [i for i in U if i < compared_int]",
+     "        elif isinstance(comparison_ins, Less):\n            smaller = []\n            for candidate in U:\n                if candidate < compared_int:\n                    smaller.append(candidate)\n            return smaller", ["C06", "C03"]),
+    ("tealer/analyses/dataflow/transaction_context/generic.py", "        if isinstance(ins_stack_value.instruction, Not):\n            arg = ins_stack_value.args[0]",
+     "        negation = isinstance(ins_stack_value.instruction, Not)\n        if negation:\n            arg = ins_stack_value.args[0]", ["C03", "C01", "C06"]),
+    ("tealer/detectors/utils.py", "        if bb in current_subroutine_executed[-1]:", "        executed_in_this_activation = current_subroutine_executed[-1]\n        if bb in executed_in_this_activation:", ["C02"]),
+    ("tealer/detectors/rekeyto.py", "            return not block_ctx.rekeyto.any_addr", "            any_address_possible = block_ctx.rekeyto.any_addr\n            return not any_address_possible", ["C01"]),
+    ("tealer/teal/parse_teal.py", "        if isinstance(ins, (B, BZ, BNZ)):\n            ins.add_next(labels[ins.label])\n            labels[ins.label].add_prev(ins)",
+     "        if isinstance(ins, B) or isinstance(ins, (BZ, BNZ)):\n            target = labels[ins.label]\n            ins.add_next(target)\n            target.add_prev(ins)", ["C04", "C05", "C12"]),
+    ("tealer/teal/parse_teal.py", "    for bb in basic_blocks:\n        ins = bb.exit_instr\n        for next_ins in ins.next:", "    for bb in basic_blocks:\n        for next_ins in bb.exit_instr.next:", ["C04", "C02"]),
+    ("tealer/analyses/dataflow/transaction_context/utils/group_helpers.py", "            offset = -int_value  # pylint: disable=invalid-unary-operand-type", "            offset = 0 - int_value", ["C10"]),
+    ("tealer/analyses/dataflow/transaction_context/addr_fields.py", "        if ANY_ADDRESS in a or ANY_ADDRESS in b:\n            return self._universal_set()",
+     "        if ANY_ADDRESS in a:\n            return self._universal_set()\n        if ANY_ADDRESS in b:\n            return self._universal_set()", ["C08"]),
+    ("tealer/utils/output.py", "        return \" -> \".join(map(str, [bb.idx for bb in path_bbs]))", "        ids = [str(bb.idx) for bb in path_bbs]\n        return \" -> \".join(ids)", ["C02", "C18"]),
+    ("tealer/teal/instructions/instructions.py", "class Dig(Instruction):", "class Dig(Instruction):\n    # reads the n-th value from the top", ["C11", "C16", "C19"]),
+    ("tealer/utils/analyses.py", "    if block.is_retsub_block:\n        return function.return_point_blocks(block.subroutine)", "    if block.is_retsub_block:\n        owner = block.subroutine\n        return function.return_point_blocks(owner)", ["C04", "C05", "C01"]),
+    ("tealer/execution_context/transactions.py", "            other_txn = txn.relative_indexes[offset]\n            group.group_relative_indexes[other_txn][txn] = offset",
+     "            seen = txn.relative_indexes[offset]\n            group.group_relative_indexes[seen][txn] = offset", ["C13"]),
+    ("tealer/analyses/dataflow/transaction_context/txn_types.py", "        U = set(self.UNIVERSAL_SETS[self.TRANSACTION_TYPE_KEY])", "        U = set(self._universal_set(self.TRANSACTION_TYPE_KEY))", ["C07", "C14"]),
+    ("tealer/teal/instructions/parse_instruction.py", "    if x.startswith(\"0x\"):\n        return int(x[2:], 16)\n    if x.startswith(\"0\"):", "    if x[:2] == \"0x\":\n        return int(x[2:], 16)\n    if x[:1] == \"0\":", ["C15", "C16"]),
+    ("tealer/printers/call_graph.py", "            graph[subroutine.name] = set(\n                map(lambda bi: bi.subroutine.name, subroutine.caller_blocks)\n            )", "            graph[subroutine.name] = {bi.subroutine.name for bi in subroutine.caller_blocks}", ["C05", "C18", "C17"]),
+    ("tealer/teal/parse_functions.py", "    for bb_copy, bb_orig in zip(all_bbs, original_blocks):\n        bb_copy.idx = bb_orig.idx", "    for position, bb_copy in enumerate(all_bbs):\n        bb_copy.idx = original_blocks[position].idx", ["C12"]),
+]
+
+
+def _run_variant(job):
+    kind, name, prop, root, spec = job
+    tmp = pathlib.Path(tempfile.mkdtemp(prefix="selfval_", dir="/tmp"))
+    try:
+        shutil.copytree(pathlib.Path(root) / "tealer", tmp / "tealer")
+        if kind == "patch":
+            r = subprocess.run(["patch", "-p1", "-s", "-f", "-i", spec], cwd=tmp, capture_output=True, text=True)
+            if r.returncode:
+                return kind, name, "skipped (patch does not apply to the current tree)", None
+        else:
+            f, old, new = spec
+            p = tmp / f
+            s = p.read_text() if p.exists() else ""
+            if old not in s:
+                return kind, name, "skipped (anchor text not present in the current tree)", None
+            p.write_text(s.replace(old, new, 1))
+        r = subprocess.run([str(VERIF / "check"), prop, "--tier", "quick", "--root", str(tmp), "--evidence-dir", str(tmp / "ev"), "--quiet"],
+                           capture_output=True, text=True)
+        first = [l for l in r.stdout.splitlines() if "KNOWN-FINDING" not in l][:1]
+        return kind, name, r.returncode, (first[0][:160].replace(str(tmp) + "/", "") if first else "")
+    finally:
+        shutil.rmtree(tmp, ignore_errors=True)
 
 
 def run(pid, ctx, rep):
-    rep.note("self-validation corpus: see /verif/seeded and tools/selftest.py")
+    if os.environ.get("VERIF_NO_SELFVAL"):
+        rep.note("self-validation skipped (VERIF_NO_SELFVAL)")
+        return
+    jobs = []
+    mpath = VERIF / "seeded" / "matrix.json"
+    if mpath.exists():
+        matrix = json.loads(mpath.read_text())
+        for name, info in matrix.items():
+            if pid in info.get("caught_by", []):
+                sid = name.split("/")[-1]
+                patch = VERIF / "seeded" / name if name.endswith(".diff") else VERIF / "seeded" / sid / "patch.diff"
+                if patch.exists():
+                    jobs.append(("patch", sid, pid, str(ctx.root), str(patch)))
+    for f, old, new, props_ in SILENT:
+        if pid in props_:
+            jobs.append(("silent", f"{f.split('/')[-1]}: {old.strip().splitlines()[0][:50]}", pid, str(ctx.root), (f, old, new)))
+    if not jobs:
+        rep.note("self-validation: no variants registered for this property")
+        return
+    with concurrent.futures.ThreadPoolExecutor(max_workers=min(12, len(jobs))) as ex:
+        results = list(ex.map(_run_variant, jobs))
+    fired = silent = skipped = 0
+    broken = []
+    for kind, name, rc, first in results:
+        if isinstance(rc, str):
+            skipped += 1
+            rep.note(f"self-validation variant '{name}': {rc}")
+            continue
+        if kind == "patch":
+            if rc == 1:
+                fired += 1
+                rep.samples.append({"rule": "self-validation", "case": {"variant": name, "expected": "fires", "first report": first}, "verdict": "ok"})
+            else:
+                broken.append(f"seeded change {name} is no longer detected by {pid} (exit {rc}) {first}")
+        else:
+            if rc == 0:
+                silent += 1
+                rep.samples.append({"rule": "self-validation", "case": {"variant": name, "expected": "silent"}, "verdict": "ok"})
+            else:
+                broken.append(f"behaviour-preserving rewrite '{name}' makes {pid} report (exit {rc}): {first}")
+    rep.counts["selfval must-fire variants fired"] = fired
+    rep.counts["selfval behaviour-preserving variants silent"] = silent
+    rep.counts["selfval variants skipped"] = skipped
+    if broken:
+        raise AnalysisError("self-validation failed: " + " | ".join(broken))
